@@ -12,6 +12,7 @@ import (
 	sdk "github.com/cosmos/cosmos-sdk/types"
 
 	assettypes "github.com/comdex-official/comdex/x/asset/types"
+	"github.com/comdex-official/comdex/x/liquidity/amm"
 	liqtypes "github.com/comdex-official/comdex/x/liquidity/types"
 	markettypes "github.com/comdex-official/comdex/x/market/types"
 
@@ -28,6 +29,7 @@ type poolCfg struct {
 	Base, Quote int      // indexes into assets
 	Rx, Ry      *big.Int // initial deposit: quote (x), base (y)
 	DonQ, DonB  *big.Int // donation to the reserve after creation (moves rx/ry away from the pool coin supply)
+	RangedOn    int      // > 0: a ranged pool on the pair of pool RangedOn (Base/Quote are taken from it): two pools share one fee collector
 }
 
 type fxCfg struct {
@@ -132,13 +134,29 @@ func newFixture(cfg fxCfg) (*sim.Env, *fixture) {
 	e.App.LiquidityKeeper.SetGenericParams(e.Ctx, gp)
 
 	lp := sim.Addr("lp")
-	for i, p := range cfg.Pools {
-		mustOK(e.Deliver(liqtypes.NewMsgCreatePair(fx.app, lp, cfg.Assets[p.Base].Denom, cfg.Assets[p.Quote].Denom)), "create pair")
-		pairs := e.App.LiquidityKeeper.GetAllPairs(e.Ctx, fx.app)
-		pair := pairs[len(pairs)-1]
+	for i := range cfg.Pools {
+		p := &cfg.Pools[i]
+		var pair liqtypes.Pair
+		if p.RangedOn > 0 {
+			p.Base, p.Quote = cfg.Pools[p.RangedOn-1].Base, cfg.Pools[p.RangedOn-1].Quote
+			pair = fx.pairs[p.RangedOn-1]
+		} else {
+			mustOK(e.Deliver(liqtypes.NewMsgCreatePair(fx.app, lp, cfg.Assets[p.Base].Denom, cfg.Assets[p.Quote].Denom)), "create pair")
+			pairs := e.App.LiquidityKeeper.GetAllPairs(e.Ctx, fx.app)
+			pair = pairs[len(pairs)-1]
+		}
 		fx.pairs = append(fx.pairs, pair)
 		dep := sdk.NewCoins(coin(cfg.Assets[p.Quote].Denom, p.Rx), coin(cfg.Assets[p.Base].Denom, p.Ry))
-		mustOK(e.Deliver(liqtypes.NewMsgCreatePool(fx.app, lp, pair.Id, dep)), "create pool")
+		if p.RangedOn > 0 {
+			gp, _ := e.App.LiquidityKeeper.GetGenericParams(e.Ctx, fx.app)
+			tp := int(gp.TickPrecision)
+			p0 := amm.PriceToDownTick(sdkmath.LegacyNewDecFromBigInt(p.Rx).Quo(sdkmath.LegacyNewDecFromBigInt(p.Ry)), tp)
+			lo := amm.PriceToDownTick(p0.QuoInt64(2), tp)
+			hi := amm.PriceToDownTick(p0.MulInt64(2), tp)
+			mustOK(e.Deliver(liqtypes.NewMsgCreateRangedPool(fx.app, lp, pair.Id, dep, lo, hi, p0)), "create ranged pool")
+		} else {
+			mustOK(e.Deliver(liqtypes.NewMsgCreatePool(fx.app, lp, pair.Id, dep)), "create pool")
+		}
 		pools := e.App.LiquidityKeeper.GetAllPools(e.Ctx, fx.app)
 		pool := pools[len(pools)-1]
 		if pool.Id != uint64(i+1) {
